@@ -8,17 +8,22 @@ class CFGVariableConverter:
 
     def __init__(self, states, stack_symbols):
         self._counter = 0
+        # The objects whose cached index was written by this converter (an
+        # index found on another object may come from an earlier converter)
+        self._indexed_objects = set()
         self._inverse_states_d = {}
         self._counter_state = 0
         for self._counter_state, state in enumerate(states):
             self._inverse_states_d[state] = self._counter_state
             state.index_cfg_converter = self._counter_state
+            self._indexed_objects.add(id(state))
         self._counter_state += 1
         self._inverse_stack_symbol_d = {}
         self._counter_symbol = 0
         for self._counter_symbol, symbol in enumerate(stack_symbols):
             self._inverse_stack_symbol_d[symbol] = self._counter_symbol
             symbol.index_cfg_converter = self._counter_symbol
+            self._indexed_objects.add(id(symbol))
         self._counter_symbol += 1
         self._conversions = [[[(False, None) for _ in range(len(states))]
                               for _ in range(len(stack_symbols))] for _ in
@@ -26,8 +31,9 @@ class CFGVariableConverter:
 
     def _get_state_index(self, state):
         """Get the state index"""
-        if state.index_cfg_converter is None:
+        if id(state) not in self._indexed_objects:
             self._set_index_state(state)
+            self._indexed_objects.add(id(state))
         return state.index_cfg_converter
 
     def _set_index_state(self, state):
@@ -39,8 +45,9 @@ class CFGVariableConverter:
 
     def _get_symbol_index(self, symbol):
         """Get the symbol index"""
-        if symbol.index_cfg_converter is None:
+        if id(symbol) not in self._indexed_objects:
             self._set_index_symbol(symbol)
+            self._indexed_objects.add(id(symbol))
         return symbol.index_cfg_converter
 
     def _set_index_symbol(self, symbol):
